@@ -172,6 +172,10 @@ def struct_world(op, tick, ts, parallel_inner, payload, n_ticks,
              'topology': copy.deepcopy(topo_inner)} for i in '01']}}}
     elif name == 'mov':
         upd = {c: {'_move': [{'source': (op[2],), 'target': 'Y'}]}}
+    elif name == 'divcopy':
+        # daughters copy the mother's processes (no 'processes' key)
+        upd = {c: {'_divide': {'mother': op[2], 'daughters': [
+            {'key': op[2] + i} for i in '01']}}}
     elif name == 'gen2':
         # a compartment with two processes that both 'set' one variable:
         # which one wins must not depend on who runs in a worker
@@ -351,6 +355,15 @@ def judge(case, serial, par, acc, expect_error=None):
           f'{case}: did not finish within the watchdog')
         return
     pend = [u for u in par['unraisable'] if 'pending' in u]
+    if tag.startswith('struct:divcopy') and par['error'] is not None \
+            and serial['error'] is None and not par['leaked'] \
+            and par['end_error'] is None:
+        # copying a parallel process never works (K8): TypeError from
+        # deepcopy when the worker is idle, 'still pending' from the
+        # is_step query when it is busy
+        V('C13.transparent', 'divide-copies-a-parallel-process',
+          f'{case}: {par["error"]!r}'[:400])
+        return
     for which in ('error', 'end_error'):
         e = par[which]
         if e is not None and 'still pending' in str(e):
@@ -381,6 +394,11 @@ def judge(case, serial, par, acc, expect_error=None):
               f'{case}: the injected exception did not propagate')
         return
     if par['error'] is not None and serial['error'] is None:
+        if tag.startswith('struct:divcopy') and isinstance(
+                par['error'], TypeError) and 'ickl' in str(par['error']):
+            V('C13.transparent', 'divide-copies-a-parallel-process',
+              f'{case}: {par["error"]!r}'[:400])
+            return
         V('C13.transparent', f'parallel-run-raises-'
           f'{type(par["error"]).__name__}:{tag}',
           f'{case}: parallel run raised {par["error"]!r}, the serial run '
@@ -496,7 +514,7 @@ def jobs(ctx):
         for stop in [('full',), ('end', 1), ('drop', 1)]:
             out.append(('steps', n_ticks, par, stop))
     ops = [('del', 'X', 'a'), ('div', 'X', 'a'), ('mov', 'X', 'a'),
-           ('gen', 'X', 'c'), ('add', 'X', 'c')]
+           ('gen', 'X', 'c'), ('add', 'X', 'c'), ('divcopy', 'X', 'a')]
     for op in ops:
         for ts in (1, 3):
             for tick in (0, 1) if ctx.quick else (0, 1, 2):
